@@ -1,0 +1,20 @@
+package base
+
+import "fmt"
+
+// CheckMetricKeyName verifies that a field name can be used as metric key or orchestration key.
+//
+// Such fields become Prometheus labels named "key_<field>", and label names are limited to [a-zA-Z0-9_];
+// registering a metric with any other label name panics.
+func CheckMetricKeyName(field string) error {
+	if len(field) == 0 {
+		return fmt.Errorf("field name is empty")
+	}
+	for i := 0; i < len(field); i++ {
+		c := field[i]
+		if (c < 'a' || c > 'z') && (c < 'A' || c > 'Z') && (c < '0' || c > '9') && c != '_' {
+			return fmt.Errorf("field '%s' cannot be used as metric label: only letters, digits and '_' are allowed", field)
+		}
+	}
+	return nil
+}
